@@ -298,7 +298,7 @@ static int flt_load(struct module_data *m, HIO_HANDLE * f, const int start)
 	struct mod_header mh;
 	uint8 mod_event[4];
 	const char *tracker;
-	char filename[1024];
+	char filename[XMP_MAXPATH];
 	char buf[16];
 	HIO_HANDLE *nt;
 	int am_synth;
@@ -312,14 +312,14 @@ static int flt_load(struct module_data *m, HIO_HANDLE * f, const int start)
 	if (m->dirname == NULL || m->basename == NULL) {
 		goto no_synth_file;
 	}
-	snprintf(filename, 1024, "%s%s.NT", m->dirname, m->basename);
+	snprintf(filename, sizeof(filename), "%s%s.NT", m->dirname, m->basename);
 	if ((nt = hio_open(filename, "rb")) == NULL) {
-		snprintf(filename, 1024, "%s%s.nt", m->dirname, m->basename);
+		snprintf(filename, sizeof(filename), "%s%s.nt", m->dirname, m->basename);
 		if ((nt = hio_open(filename, "rb")) == NULL) {
-			snprintf(filename, 1024, "%s%s.AS", m->dirname,
+			snprintf(filename, sizeof(filename), "%s%s.AS", m->dirname,
 				 m->basename);
 			if ((nt = hio_open(filename, "rb")) == NULL) {
-				snprintf(filename, 1024, "%s%s.as", m->dirname,
+				snprintf(filename, sizeof(filename), "%s%s.as", m->dirname,
 					 m->basename);
 				nt = hio_open(filename, "rb");
 			}
